@@ -121,6 +121,22 @@ func (e *engine) generate(r *lib.Rng, tier string, i int) any {
 		if c := g.nilCase(); c != nil {
 			return c
 		}
+	case r.Chance(1, 10):
+		// the whole successor input from one field of one predecessor (FromField / FromFieldPath), for
+		// every kind of input type (struct, pointer, map, any): the only mapping the node can have
+		T := tgtTypeW[r.Intn(len(tgtTypeW))]
+		d := g.declFor(T, nil, T)
+		for try := 0; try < 4 && len(d.Maps[0].From) == 0; try++ {
+			d = g.declFor(T, nil, T)
+		}
+		// make the source path resolve most of the time
+		for try := 0; try < 6; try++ {
+			if _, cls := refGet(d.Val, expandPath(d.S, d.Maps[0].From)); cls == "" {
+				break
+			}
+			d.Val = g.value(d.S, g.depth)
+		}
+		return &Case{T: T, Decls: []Decl{d}, Short: r.Chance(1, 2), Note: "whole-input"}
 	}
 	c, tpaths := g.base(r.Range(1, maxDecls), maxMaps, false)
 	if r.Chance(1, 5) {
